@@ -631,7 +631,13 @@ def _crop_corner_centered_mask(mask: torch.Tensor, bf_mask_padding_px: int):
     mask_c = torch.fft.fftshift(mask)
     ys, xs = torch.where(mask_c)
 
+    # crop symmetrically about the zero-frequency pixel so that it is again the corner
+    # pixel after ifftshift (a bounding box that is not centred on it would relabel
+    # every detector pixel with the spatial frequency of a neighbour)
     px = bf_mask_padding_px
-    y0, y1 = ys.min() - px, ys.max() + px + 1
-    x0, x1 = xs.min() - px, xs.max() + px + 1
-    return torch.fft.ifftshift(mask_c[y0:y1, x0:x1])
+    cy, cx = mask_c.shape[0] // 2, mask_c.shape[1] // 2
+    ry = int(max(cy - ys.min(), ys.max() - cy)) + px
+    rx = int(max(cx - xs.min(), xs.max() - cx)) + px
+    if cy - ry < 0 or cy + ry + 1 > mask_c.shape[0] or cx - rx < 0 or cx + rx + 1 > mask_c.shape[1]:
+        return mask  # nothing to crop without losing the centring
+    return torch.fft.ifftshift(mask_c[cy - ry : cy + ry + 1, cx - rx : cx + rx + 1])
